@@ -94,18 +94,14 @@ Definition get_pc (p : nat) (s : st) : pc :=
 Definition put_pc (p : nat) (v : pc) (s : st) : st :=
   set_pcs s ((p, v) :: filter (fun x => negb (Nat.eqb (fst x) p)) (pcs s)).
 
-Fixpoint take_row (id : Z) (l : list row) : option (row * list row) :=
+Fixpoint take {A} (key : A -> Z) (id : Z) (l : list A) : option (A * list A) :=
   match l with
   | [] => None
-  | r :: t => if r_id r =? id then Some (r, t)
-              else match take_row id t with Some (x, t') => Some (x, r :: t') | None => None end
+  | r :: t => if key r =? id then Some (r, t)
+              else match take key id t with Some (x, t') => Some (x, r :: t') | None => None end
   end.
-Fixpoint take_d (id : Z) (l : list drow) : option (drow * list drow) :=
-  match l with
-  | [] => None
-  | r :: t => if d_id r =? id then Some (r, t)
-              else match take_d id t with Some (x, t') => Some (x, r :: t') | None => None end
-  end.
+Definition take_row := take r_id.
+Definition take_d := take d_id.
 Definition upd_row (id : Z) (f : row -> row) (l : list row) : list row :=
   map (fun r => if r_id r =? id then f r else r) l.
 Definition has_row (id : Z) (l : list row) : bool := existsb (fun r => r_id r =? id) l.
@@ -131,14 +127,11 @@ Definition eligible (c : cfg) (s : st) (r : row) : bool :=
 
 (* ORDER BY deliver_at compares the stored TEXT: date first, then 'YYYY-MM-DD HH..' (space) sorts before
    'YYYY-MM-DDTHH..', then the time of day; equal strings come out in rowid order (index scan) *)
+Definition fmt_rank (r : row) : Z := if r_sqlfmt r then 0 else 1.
+Definition lex4 (a1 a2 a3 a4 b1 b2 b3 b4 : Z) : bool :=
+  (a1 <? b1) || ((a1 =? b1) && ((a2 <? b2) || ((a2 =? b2) && ((a3 <? b3) || ((a3 =? b3) && (a4 <? b4)))))).
 Definition row_before (a b : row) : bool :=
-  if day (r_deliver a) <? day (r_deliver b) then true
-  else if day (r_deliver b) <? day (r_deliver a) then false
-  else if r_sqlfmt a && negb (r_sqlfmt b) then true
-  else if r_sqlfmt b && negb (r_sqlfmt a) then false
-  else if r_deliver a <? r_deliver b then true
-  else if r_deliver b <? r_deliver a then false
-  else r_id a <? r_id b.
+  lex4 (day (r_deliver a)) (fmt_rank a) (r_deliver a) (r_id a) (day (r_deliver b)) (fmt_rank b) (r_deliver b) (r_id b).
 
 Definition better (c : cfg) (s : st) (best : option row) (r : row) : option row :=
   if eligible c s r then
@@ -364,9 +357,12 @@ Fixpoint leqb {A} (e : A -> A -> bool) (a b : list A) : bool :=
   match a, b with [] , [] => true | x :: a', y :: b' => e x y && leqb e a' b' | _, _ => false end.
 
 (* what the harness reads from the database after an operation *)
-Record obs := mkObs { o_rows : list row; o_dlq : list drow; o_res : res }.
+(* o_state = false: the database could not be read at this point (another step of the same thread followed
+   without a scheduling point); o_res = None: the return value is not observable at this step *)
+Record obs := mkObs { o_state : bool; o_rows : list row; o_dlq : list drow; o_res : option res }.
 Definition obs_ok (x : st * res) (o : obs) : bool :=
-  leqb row_eqb (rows (fst x)) (o_rows o) && leqb drow_eqb (dlq (fst x)) (o_dlq o) && res_eqb (snd x) (o_res o).
+  (if o_state o then leqb row_eqb (rows (fst x)) (o_rows o) && leqb drow_eqb (dlq (fst x)) (o_dlq o) else true)
+  && match o_res o with Some r => res_eqb (snd x) r | None => true end.
 
 (* index of the first operation after which model and database differ, or the number of operations *)
 Fixpoint first_diff (tr : list (st * res)) (os : list obs) (i : nat) : nat :=
